@@ -64,6 +64,7 @@ type Contract struct {
 	MapSpecs  map[string]*Clause // assumed property of lookups in a map-typed parameter (key, value, ok)
 	LoopCand  []*Clause // candidate invariants: kept per loop only if inductive (Houdini)
 	Inline    bool
+	DynCall   *FuncParam
 	ReadonlyArgs []int
 	ReadonlyActuals []int // positions in the call's actual list (receiver first) that are never written
 	AssumeFacets string // facets whose clauses are assumed, not verified, for this function
@@ -99,6 +100,7 @@ type Specs struct {
 	Files     []string
 	// Tables: property -> list of function names (from "property" lines)
 	PropFuncs map[string][]string
+	WalkDirectives []string
 	Ghosts    map[string]int // ghost (uninterpreted) spec functions: name -> arity
 }
 
@@ -107,8 +109,8 @@ func NewSpecs() *Specs {
 }
 
 var clauseKeywords = map[string]bool{
-	"pred": true, "func": true, "extern": true, "ghost": true, "iface": true, "requires": true, "ensures": true, "preserves": true, "loop": true,
-	"funcparam": true, "mapspec": true, "assumefacet": true, "readonly": true, "inline": true, "trusted": true, "opaque": true, "noverify": true, "modifies": true, "pure": true, "arith": true, "axiom": true,
+	"pred": true, "func": true, "extern": true, "ghost": true, "iface": true, "walk": true, "requires": true, "ensures": true, "preserves": true, "loop": true,
+	"funcparam": true, "mapspec": true, "assumefacet": true, "readonly": true, "dyncall": true, "inline": true, "trusted": true, "opaque": true, "noverify": true, "modifies": true, "pure": true, "arith": true, "axiom": true,
 }
 
 // LoadSpecs reads every contracts_verif.go under repo (falling back to mirror for packages lacking one).
@@ -245,6 +247,10 @@ func (S *Specs) parseFile(path string) error {
 			}
 			S.Axioms = append(S.Axioms, &Clause{Kind: "axiom", Facet: facet, Tags: tags, Label: label, E: e, Src: body, File: path, Line: rc.line})
 			cur = nil
+		case "walk":
+			// directives for the C18 child relation: "walk exclude T..." and "walk union T: A | B | C"
+			S.WalkDirectives = append(S.WalkDirectives, strings.TrimSpace(rest))
+			cur = nil
 		case "ghost":
 			// ghost name(a, b): uninterpreted specification function over integers/pointers
 			head := strings.TrimSpace(rest)
@@ -311,6 +317,15 @@ func (S *Specs) parseFile(path string) error {
 						cur.ReadonlyActuals = append(cur.ReadonlyActuals, k)
 					}
 				}
+			case "dyncall":
+				// dyncall like Parser.parseStylesheet on p : calls through function values in this function behave like
+				// the named method applied to receiver parameter p; the called value must be one of the functions whose
+				// contract reads the same (obligation)
+				f := strings.Fields(rest)
+				if len(f) != 4 || f[0] != "like" || f[2] != "on" {
+					return fail(fmt.Errorf("dyncall like METHOD on RECV"))
+				}
+				cur.DynCall = &FuncParam{Like: short + "." + f[1], Recv: f[3]}
 			case "assumefacet":
 				// assumefacet F: clauses of that facet are assumed for this function (not verified); listed in the evidence
 				cur.AssumeFacets += strings.TrimSpace(rest)
